@@ -112,6 +112,9 @@ def p2_refuses_early(binfns, consts):
                 continue
             names = [c.callee.split('::<')[0] for c in q.calls]
             anyc = [c for c in q.calls if c.callee.split('::<')[0].endswith('::any') or c.callee.endswith('Iterator>::any')]
+            allc = [c for c in q.calls if (c.callee.split('::<')[0].endswith('::all') or c.callee.endswith('Iterator>::all')) and 'sources' in canon(c.args[0])]
+            if allc:
+                bad.append('the source paths are tested with all() instead of any(): one legal source lets the others through')
             some = [c for c in q.calls if c.callee.split('::<')[0].endswith('is_some')]
             work = [n for n in names if n.endswith(('load_type_map', 'populate_directories', 'generate_ui_file', 'BuildContext::prepare'))]
             if some and not anyc:
@@ -389,7 +392,9 @@ def replay(workdir):
                 out[os.path.relpath(p, workdir)] = (st.st_ino, st.st_mtime_ns, st.st_size)
         return out
     before = tree(workdir)
-    for name, args in (('parent', ['-O', 'out', '../Outside.qml']), ('absolute', ['-O', 'out', os.path.join(proj, 'MyForm.qml')]), ('inner-parent', ['-O', 'out', 'sub/../../Outside.qml'])):
+    for name, args in (('parent', ['-O', 'out', '../Outside.qml']), ('absolute', ['-O', 'out', os.path.join(proj, 'MyForm.qml')]), ('inner-parent', ['-O', 'out', 'sub/../../Outside.qml']),
+                       ('parent-after-a-legal-source', ['-O', 'out', 'MyForm.qml', '../Outside.qml']), ('parent-before-a-legal-source', ['-O', 'out', '../Outside.qml', 'MyForm.qml']),
+                       ('absolute-next-to-a-legal-source', ['-O', 'out', 'MyForm.qml', os.path.join(workdir, 'Outside.qml')])):
         r = run(args)
         if r.returncode == 0 or tree(workdir) != before:
             failed.append({'probe': 'refuse-' + name, 'rc': r.returncode, 'new_files': sorted(set(tree(workdir)) - set(before)), 'why': 'an escaping source path is accepted or something is written'})
